@@ -1,12 +1,13 @@
 (* C04 composed with C20: Model/Run.v abstracts the error-report renderer of ConsoleApplication.run as the boolean
-   render_ok ("the renderer returned").  The renderer is ExceptionTrace.render, modelled in Model/Trace.v and proved not to
-   fail once tokenize has succeeded where it is needed (TraceRenderLemmas, TraceSolutionLemmas).  Here render_ok is
-   discharged: it is report_ok, computed from render_sol.
+   render_ok ("the renderer returned").  The renderer is ExceptionTrace.render, modelled in Model/Trace.v and proved never
+   to fail (TraceRenderLemmas, TraceSolutionLemmas: since fix caca46b it catches what reading / tokenizing a source raises,
+   so its lines always exist, and writing them cannot fail).  Here render_ok is discharged: it is report_ok, computed from
+   render_sol, and it is always true under the hypotheses on the output.
    The exception of Run.v (exn) says only what run() distinguishes: KeyboardInterrupt or not, CliKitException or not.
    What the renderer reads of the raised exception is its exn_case x (class name, message, frames with their token
-   streams) and the solutions sols the provider repository returns for it: they are inputs, universally quantified - the
-   theorems hold whatever they are, under the stated conditions.  The report is rendered in simple mode exactly for
-   library exceptions (simple = e_clikit e), on the error output o at the verbosity of c. *)
+   streams - or the fact that tokenize / reading the file raised) and the solutions sols the provider repository returns
+   for it: they are inputs, universally quantified - the theorems hold whatever they are.  The report is rendered in
+   simple mode exactly for library exceptions (simple = e_clikit e), on the error output o at the verbosity of c. *)
 From Coq Require Import Lia.
 From Clikit Require Import Base.Prelude Base.Res Model.Conv Model.Markup Model.OutputM Model.Trace Model.Run
   Proofs.MarkupLemmas Proofs.OutputLemmas Proofs.TraceLemmas Proofs.LiteralLemmas Proofs.TraceRenderLemmas
@@ -18,36 +19,28 @@ Definition report_ok (c : tcfg) (o : outp) (x : exn_case) (sols : list solution)
 
 (* ------------------------------------------------------------------ 1. the renderer returns *)
 (* o: an ordinary output with an ANSI or plain formatter whose style stack is empty and whose style table resolves
-   "error" and "b"; tokenize did not fail where the full report needs it (nothing is asked in simple mode); when the
-   output decorates, the texts hold no ESC *)
+   "error" and "b"; when the output decorates, the texts hold no ESC.  Nothing is asked of the exception case: whatever
+   tokenize did on the sources of its frames, in either report mode. *)
 Lemma report_ok_true sty c o x sols simple :
   out_ok sty o -> resolvable sty st_error -> resolvable sty st_b ->
-  (simple = false -> render_cond c x) ->
   (decorated o = true -> inputs_ne c x /\ Forall sol_ne sols) ->
   report_ok c o x sols simple = true.
 Proof.
-  intros Ho Herr Hb Hc Hne. unfold report_ok.
-  destruct (render_sol_never_fails_inputs sty c simple o x sols Ho Herr Hb Hc Hne) as (bytes & HR). rewrite HR. reflexivity.
+  intros Ho Herr Hb Hne. unfold report_ok.
+  destruct (render_sol_never_fails_unconditionally sty c simple o x sols Ho Herr Hb Hne) as (bytes & HR). rewrite HR. reflexivity.
 Qed.
-(* the full report: the renderer returns ONLY IF tokenize succeeded where it is needed *)
-Lemma report_ok_cond c o x sols : report_ok c o x sols false = true -> render_cond c x.
-Proof.
-  unfold report_ok. destruct (render_sol c false o x sols) as [bytes|e] eqn:E; [|discriminate]. intros _.
-  apply (render_sol_ok_cond c o x sols bytes E).
-Qed.
-Lemma report_ok_full_iff sty c o x sols :
-  out_ok sty o -> resolvable sty st_error -> resolvable sty st_b -> (decorated o = true -> inputs_ne c x /\ Forall sol_ne sols) ->
-  (report_ok c o x sols false = true <-> render_cond c x).
-Proof.
-  intros Ho Herr Hb Hne. split; [apply report_ok_cond|]. intros Hc. apply (report_ok_true sty c o x sols false Ho Herr Hb (fun _ => Hc) Hne).
-Qed.
-(* the simple report (library exceptions): the renderer always returns *)
+(* an output that does not decorate: no hypothesis on the texts either *)
+Lemma report_ok_plain sty c o x sols simple :
+  out_ok sty o -> resolvable sty st_error -> resolvable sty st_b -> decorated o = false ->
+  report_ok c o x sols simple = true.
+Proof. intros Ho Herr Hb Hd. apply (report_ok_true sty c o x sols simple Ho Herr Hb). rewrite Hd. discriminate. Qed.
+(* the simple report (library exceptions) reads the message only *)
 Lemma report_ok_simple sty c o x sols :
   out_ok sty o -> resolvable sty st_error -> resolvable sty st_b -> (decorated o = true -> no_esc (x_msg x)) ->
   report_ok c o x sols true = true.
 Proof.
   intros Ho Herr Hb Hne. unfold report_ok.
-  destruct (render_sol_never_fails sty c true o x sols Ho Herr Hb) as (bytes & HR); [discriminate| |rewrite HR; reflexivity].
+  destruct (render_sol_never_fails sty c true o x sols Ho Herr Hb) as (bytes & HR); [|rewrite HR; reflexivity].
   intros Hd ls HL. assert (ls = [(o_indent o, s_error_open ++ literal (x_msg x) st_error ++ s_error_close)]) as ->
     by (injection HL; intros; symmetry; assumption).
   constructor; [|constructor]. cbn [snd].
@@ -67,25 +60,25 @@ Lemma run_status_ok catch debug ok ls h s calls : handle debug ls h = (inl s, ca
   run catch debug ok ls h = {| r_end := Status s; r_handler_calls := calls; r_reported := false; r_simple := false |}.
 Proof. intros H. unfold run. rewrite H. reflexivity. Qed.
 
-(* 2a. the main statement: every exception that reaches run() (not KeyboardInterrupt), catching on: the report is
-   printed, the run ends with status 1, nothing escapes *)
+(* 2a. the main statement: EVERY exception that reaches run() (not KeyboardInterrupt), catching on - whatever the
+   exception case (its frames, what tokenize did on their sources) and the solutions: the report is printed, the run ends
+   with status 1, nothing escapes.  Hypotheses: the error output (out_ok, "error" and "b" resolve) and, when it
+   decorates, ESC-free texts. *)
 Theorem run_exception_rendered sty c o x sols debug ls h e calls :
   handle debug ls h = (inr e, calls) -> e_keyboard e = false ->
   out_ok sty o -> resolvable sty st_error -> resolvable sty st_b ->
-  (e_clikit e = false -> render_cond c x) ->
   (decorated o = true -> inputs_ne c x /\ Forall sol_ne sols) ->
   run true debug (report_ok c o x sols (e_clikit e)) ls h
   = {| r_end := Status 1; r_handler_calls := calls; r_reported := true; r_simple := e_clikit e |}.
 Proof.
-  intros Hh Hk Ho Herr Hb Hc Hne. rewrite (run_exn true debug _ ls h e calls Hh), Hk.
-  rewrite (report_ok_true sty c o x sols (e_clikit e) Ho Herr Hb Hc Hne). reflexivity.
+  intros Hh Hk Ho Herr Hb Hne. rewrite (run_exn true debug _ ls h e calls Hh), Hk.
+  rewrite (report_ok_true sty c o x sols (e_clikit e) Ho Herr Hb Hne). reflexivity.
 Qed.
 
 (* 2b. the handler raises (exception_reported of C04, render_ok discharged) *)
 Theorem raise_rendered sty c o x sols debug ls e :
   listeners_pass ls -> e_keyboard e = false ->
   out_ok sty o -> resolvable sty st_error -> resolvable sty st_b ->
-  (e_clikit e = false -> render_cond c x) ->
   (decorated o = true -> inputs_ne c x /\ Forall sol_ne sols) ->
   run true debug (report_ok c o x sols (e_clikit e)) ls (Raise e)
   = {| r_end := Status 1; r_handler_calls := 1; r_reported := true; r_simple := e_clikit e |}.
@@ -93,7 +86,7 @@ Proof.
   intros Hl Hk. apply (run_exception_rendered sty c o x sols debug ls (Raise e) e 1); [|exact Hk].
   unfold listeners_pass in Hl. unfold handle, do_handle. rewrite Hl, Hk. reflexivity.
 Qed.
-(* library exceptions: the simple report; nothing is asked of tokenize *)
+(* library exceptions: the simple report *)
 Corollary raise_clikit_rendered sty c o x sols debug ls e :
   listeners_pass ls -> e_keyboard e = false -> e_clikit e = true ->
   out_ok sty o -> resolvable sty st_error -> resolvable sty st_b ->
@@ -102,25 +95,24 @@ Corollary raise_clikit_rendered sty c o x sols debug ls e :
   = {| r_end := Status 1; r_handler_calls := 1; r_reported := true; r_simple := true |}.
 Proof.
   intros Hl Hk Hc Ho Herr Hb Hne. pose proof (raise_rendered sty c o x sols debug ls e Hl Hk Ho Herr Hb) as H. rewrite Hc in H.
-  apply H; [discriminate|exact Hne].
+  apply H. exact Hne.
 Qed.
 (* a result int() rejects (unconvertible_result_reported of C04): the TypeError / ValueError gets the full report *)
 Theorem unconvertible_rendered sty c o x sols debug ls v :
   listeners_pass ls -> truthy v = true -> to_int v = None ->
   out_ok sty o -> resolvable sty st_error -> resolvable sty st_b ->
-  render_cond c x -> (decorated o = true -> inputs_ne c x /\ Forall sol_ne sols) ->
+  (decorated o = true -> inputs_ne c x /\ Forall sol_ne sols) ->
   run true debug (report_ok c o x sols false) ls (Ret v)
   = {| r_end := Status 1; r_handler_calls := 1; r_reported := true; r_simple := false |}.
 Proof.
-  intros Hl Ht Hi Ho Herr Hb Hc Hne.
-  apply (run_exception_rendered sty c o x sols debug ls (Ret v) conversion_error 1); try assumption; [|reflexivity|intros _; exact Hc].
+  intros Hl Ht Hi Ho Herr Hb Hne.
+  apply (run_exception_rendered sty c o x sols debug ls (Ret v) conversion_error 1); try assumption; [|reflexivity].
   unfold listeners_pass in Hl. unfold handle, do_handle. rewrite Hl, Ht, Hi. reflexivity.
 Qed.
 (* a pre-handle listener fails: the handler is not invoked, the failure is reported all the same *)
 Theorem listener_failure_rendered sty c o x sols debug ls h e :
   dispatch_pre ls None = inr e -> e_keyboard e = false ->
   out_ok sty o -> resolvable sty st_error -> resolvable sty st_b ->
-  (e_clikit e = false -> render_cond c x) ->
   (decorated o = true -> inputs_ne c x /\ Forall sol_ne sols) ->
   run true debug (report_ok c o x sols (e_clikit e)) ls h
   = {| r_end := Status 1; r_handler_calls := 0; r_reported := true; r_simple := e_clikit e |}.
@@ -133,19 +125,19 @@ Qed.
    report mode, a run with catching on returns an integer status in 0..255 - nothing escapes *)
 Theorem run_status_rendered sty c o x sols simple debug ls h :
   out_ok sty o -> resolvable sty st_error -> resolvable sty st_b ->
-  render_cond c x -> (decorated o = true -> inputs_ne c x /\ Forall sol_ne sols) ->
+  (decorated o = true -> inputs_ne c x /\ Forall sol_ne sols) ->
   exists s, r_end (run true debug (report_ok c o x sols simple) ls h) = Status s /\ (0 <= s <= 255)%Z.
 Proof.
-  intros Ho Herr Hb Hc Hne. rewrite (report_ok_true sty c o x sols simple Ho Herr Hb (fun _ => Hc) Hne). apply run_status_lemma.
+  intros Ho Herr Hb Hne. rewrite (report_ok_true sty c o x sols simple Ho Herr Hb Hne). apply run_status_lemma.
 Qed.
 (* and a report is printed exactly when an exception other than KeyboardInterrupt reached run() *)
 Theorem reported_iff_exception sty c o x sols simple debug ls h :
   out_ok sty o -> resolvable sty st_error -> resolvable sty st_b ->
-  render_cond c x -> (decorated o = true -> inputs_ne c x /\ Forall sol_ne sols) ->
+  (decorated o = true -> inputs_ne c x /\ Forall sol_ne sols) ->
   (r_reported (run true debug (report_ok c o x sols simple) ls h) = true
    <-> exists e calls, handle debug ls h = (inr e, calls) /\ e_keyboard e = false).
 Proof.
-  intros Ho Herr Hb Hc Hne. rewrite (report_ok_true sty c o x sols simple Ho Herr Hb (fun _ => Hc) Hne).
+  intros Ho Herr Hb Hne. rewrite (report_ok_true sty c o x sols simple Ho Herr Hb Hne).
   destruct (handle debug ls h) as [[s|e] calls] eqn:E.
   - rewrite (run_status_ok true debug true ls h s calls E). cbn [r_reported]. split; [discriminate|]. intros (e & n & H & _). discriminate.
   - rewrite (run_exn true debug true ls h e calls E). destruct (e_keyboard e) eqn:Ek; cbn [negb r_reported].
@@ -153,16 +145,35 @@ Proof.
     + split; [|reflexivity]. intros _. exists e, calls. split; [reflexivity|exact Ek].
 Qed.
 
-(* ------------------------------------------------------------------ 3. the condition on tokenize cannot be dropped *)
-(* the full report of an exception whose last frame's file tokenize rejects (or, with the stack trace printed, a listed
-   frame's): the renderer raises in turn and THAT exception escapes run() - C04 fails there *)
-Theorem run_escapes_when_tokenize_fails c o x sols debug ls h e calls :
-  handle debug ls h = (inr e, calls) -> e_keyboard e = false -> e_clikit e = false -> ~ render_cond c x ->
-  run true debug (report_ok c o x sols (e_clikit e)) ls h
-  = {| r_end := Escaped conversion_error; r_handler_calls := calls; r_reported := false; r_simple := false |}.
+(* ------------------------------------------------------------------ 3. the renderer's own failure is unreachable *)
+(* Before fix caca46b the full report of an exception whose last frame's file tokenize rejected made the renderer raise
+   in turn, and THAT exception escaped run() (the earlier theorem run_escapes_when_tokenize_fails).  Now the renderer's
+   result is true for every exception case, report mode and solutions ... *)
+Theorem renderer_always_returns sty c o :
+  out_ok sty o -> resolvable sty st_error -> resolvable sty st_b ->
+  forall x sols simple, (decorated o = true -> inputs_ne c x /\ Forall sol_ne sols) -> report_ok c o x sols simple = true.
+Proof. intros Ho Herr Hb x sols simple Hne. apply (report_ok_true sty c o x sols simple Ho Herr Hb Hne). Qed.
+(* ... so the branch of run() in which the renderer's exception escapes is never taken: with catching on nothing escapes,
+   whatever the handler, the listeners, the exception case and the solutions *)
+Theorem run_never_escapes sty c o x sols simple debug ls h :
+  out_ok sty o -> resolvable sty st_error -> resolvable sty st_b ->
+  (decorated o = true -> inputs_ne c x /\ Forall sol_ne sols) ->
+  forall e, r_end (run true debug (report_ok c o x sols simple) ls h) <> Escaped e.
 Proof.
-  intros Hh Hk Hc Hn. rewrite (run_exn true debug _ ls h e calls Hh), Hk, Hc.
-  destruct (report_ok c o x sols false) eqn:E; [|reflexivity]. exfalso. apply Hn, (report_ok_cond c o x sols E).
+  intros Ho Herr Hb Hne e. destruct (run_status_rendered sty c o x sols simple debug ls h Ho Herr Hb Hne) as (st & E & _).
+  rewrite E. discriminate.
+Qed.
+(* the unreadable source in particular: an ordinary exception whose frames' files cannot be read or tokenized is
+   reported like any other *)
+Theorem run_reports_unreadable_source sty c o x sols debug ls h e calls :
+  handle debug ls h = (inr e, calls) -> e_keyboard e = false -> e_clikit e = false ->
+  Forall (fun f => ~ tok_ok (f_content f) /\ ~ tok_ok (f_linetoks f)) (x_frames x) ->
+  out_ok sty o -> resolvable sty st_error -> resolvable sty st_b ->
+  (decorated o = true -> inputs_ne c x /\ Forall sol_ne sols) ->
+  run true debug (report_ok c o x sols (e_clikit e)) ls h
+  = {| r_end := Status 1; r_handler_calls := calls; r_reported := true; r_simple := false |}.
+Proof.
+  intros Hh Hk Hc _ Ho Herr Hb Hne. rewrite (run_exception_rendered sty c o x sols debug ls h e calls Hh Hk Ho Herr Hb Hne), Hc. reflexivity.
 Qed.
 
 (* ------------------------------------------------------------------ 4. the hypotheses are satisfiable *)
@@ -175,7 +186,7 @@ Example ex_raise_rendered debug :
   run true debug (report_ok (demo_cfg true) (demo_out FPlain false 0) (demo_x [demo_frame; demo_frame]) [ex_s1; ex_s2] (e_clikit ex_exn)) [LPass] (Raise ex_exn)
   = {| r_end := Status 1; r_handler_calls := 1; r_reported := true; r_simple := false |}.
 Proof.
-  apply (raise_rendered demo_sty2); [reflexivity|reflexivity|apply demo_out_ok; discriminate|apply demo_error|apply demo_b|intros _; apply ex_cond|].
+  apply (raise_rendered demo_sty2); [reflexivity|reflexivity|apply demo_out_ok; discriminate|apply demo_error|apply demo_b|].
   intros H. vm_compute in H. discriminate.
 Qed.
 (* decorated output, at indentation 4 *)
@@ -183,7 +194,7 @@ Example ex_raise_rendered_ansi debug :
   run true debug (report_ok (demo_cfg true) (demo_out (FAnsi false) true 4) (demo_x [demo_frame; demo_frame]) [ex_s1; ex_s2] (e_clikit ex_exn)) [] (Raise ex_exn)
   = {| r_end := Status 1; r_handler_calls := 1; r_reported := true; r_simple := false |}.
 Proof.
-  apply (raise_rendered demo_sty2); [reflexivity|reflexivity|apply demo_out_ok; discriminate|apply demo_error|apply demo_b|intros _; apply ex_cond|].
+  apply (raise_rendered demo_sty2); [reflexivity|reflexivity|apply demo_out_ok; discriminate|apply demo_error|apply demo_b|].
   intros _. split; [apply ex_inputs_ne|apply ex_sols_ne].
 Qed.
 (* a library exception whose frames tokenize rejects: the simple report does not need them *)
@@ -194,24 +205,35 @@ Proof.
   apply (raise_clikit_rendered demo_sty2 _ _ _ _ debug [] ex_lib_exn); [reflexivity|reflexivity|reflexivity|apply demo_out_ok; discriminate|apply demo_error|apply demo_b|].
   intros H. vm_compute in H. discriminate.
 Qed.
-(* the same frames under an ordinary exception: the renderer's own failure escapes *)
-Example ex_escapes debug :
-  run true debug (report_ok (demo_cfg false) (demo_out FPlain false 0) (demo_x [bad_frame]) [] (e_clikit ex_exn)) [] (Raise ex_exn)
-  = {| r_end := Escaped conversion_error; r_handler_calls := 1; r_reported := false; r_simple := false |}.
+(* the same frames under an ordinary exception (it used to escape): reported, status 1 - through the theorem ... *)
+Example ex_unreadable_rendered debug :
+  run true debug (report_ok (demo_cfg false) (demo_out FPlain false 0) (demo_x [bad_frame; bad_frame2]) [ex_s1] (e_clikit ex_exn)) [] (Raise ex_exn)
+  = {| r_end := Status 1; r_handler_calls := 1; r_reported := true; r_simple := false |}.
 Proof.
-  apply (run_escapes_when_tokenize_fails _ _ _ _ debug [] (Raise ex_exn) ex_exn 1); [reflexivity|reflexivity|reflexivity|apply ex_cond_fails].
+  apply (run_reports_unreadable_source demo_sty2 _ _ _ _ debug [] (Raise ex_exn) ex_exn 1);
+    [reflexivity|reflexivity|reflexivity| |apply demo_out_ok; discriminate|apply demo_error|apply demo_b|].
+  - repeat constructor; intros (toks & H); discriminate.
+  - intros H. vm_compute in H. discriminate.
 Qed.
-Example ex_escapes_vm : run true false (report_ok (demo_cfg false) (demo_out FPlain false 0) (demo_x [bad_frame]) [] false) [] (Raise ex_exn)
-  = {| r_end := Escaped conversion_error; r_handler_calls := 1; r_reported := false; r_simple := false |}.
-Proof. vm_compute. reflexivity. Qed.
+(* ... and by computation, TokenError and the other exceptions, at every verbosity *)
+Example ex_unreadable_rendered_vm :
+  run true false (report_ok (demo_cfg false) (demo_out FPlain false 0) (demo_x [bad_frame]) [] false) [] (Raise ex_exn)
+  = {| r_end := Status 1; r_handler_calls := 1; r_reported := true; r_simple := false |}
+  /\ run true false (report_ok (demo_cfg true) (demo_out FPlain false 0) (demo_x [bad_frame2; bad_frame]) [] false) [] (Raise ex_exn)
+  = {| r_end := Status 1; r_handler_calls := 1; r_reported := true; r_simple := false |}
+  /\ run true true (report_ok demo_cfg_debug (demo_out (FAnsi false) true 0) (demo_x [bad_frame2; bad_frame]) [ex_s1] false) [] (Raise ex_exn)
+  = {| r_end := Status 1; r_handler_calls := 1; r_reported := true; r_simple := false |}.
+Proof. vm_compute. repeat split; reflexivity. Qed.
 End RunTraceExamples.
 
 Print Assumptions report_ok_true.
-Print Assumptions report_ok_full_iff.
+Print Assumptions report_ok_plain.
 Print Assumptions run_exception_rendered.
 Print Assumptions raise_rendered.
 Print Assumptions unconvertible_rendered.
 Print Assumptions listener_failure_rendered.
 Print Assumptions run_status_rendered.
 Print Assumptions reported_iff_exception.
-Print Assumptions run_escapes_when_tokenize_fails.
+Print Assumptions renderer_always_returns.
+Print Assumptions run_never_escapes.
+Print Assumptions run_reports_unreadable_source.
